@@ -20,6 +20,20 @@ def corpus(chk):
     out = []
     for i in range(60 if q else 1500):
         out.append(('builtin', values.random_value(rng, depth=rng.choice([1, 2, 3, 4]))))
+    # strings with both kinds of quote, backslashes and control characters, long enough to be split:
+    # every split piece is escaped separately, under the quote chosen for the whole value
+    from checks import strings as SS
+    alpha = [1, 2, 3, 4, 5, 6, 7, 8]
+    import itertools
+    triples = [t for n in (1, 2, 3) for t in itertools.product(alpha, repeat=n)]
+    for t in (rng.sample(triples, 60) if q else triples):
+        for is_bytes in (False, True):
+            mid = SS.realize(t, is_bytes)
+            pre = SS.realize([1, 1, 1, 2, 5, 1, 5, 2], is_bytes)      # aaa "a"
+            post = SS.realize([2, 1, 1, 1, 1], is_bytes)
+            s_ = pre * 2 + mid + post * 5
+            out.append(('adversarial-string', [s_]))
+            out.append(('adversarial-string', {'key': s_}))
     for kind, obj in ST.instances(rng, q)[:: 3 if q else 1]:
         out.append(('stdlib:' + kind, [obj, {'k': obj}]))
     for cls, (qual, kind) in list(S.ALL.items())[:: 2 if q else 1]:
